@@ -6,7 +6,7 @@ PROPS = ["Props/C08.v"]
 
 def run(ctx):
     schedcheck.run(ctx, "C08", PROPS,
-                   [("core", 100, 1000), ("hours", 80, 800), ("subslot", 80, 800), ("alap", 100, 1000), ("alapcore", 100, 1000), ("teamlimits", 80, 700), ("limits", 60, 500), ("sd", 60, 600), ("taskalap", 60, 600), ("coredeps", 40, 400), ("grouphours", 60, 500)],
+                   [("core", 100, 1000), ("hours", 80, 800), ("subslot", 80, 800), ("alap", 100, 1000), ("alapcore", 100, 1000), ("teamlimits", 80, 700), ("limits", 60, 500), ("sd", 60, 600), ("taskalap", 60, 600), ("coredeps", 40, 400), ("grouphours", 60, 500), ("windeps", 60, 500)],
                    ["c08", "c08_team"],
                    ["checked for tasks on a single resource with no limit in play (as the property states) and calendars aligned to the resolution",
                     "free slots are free for good (bookings are never withdrawn), so the final ledger decides",
